@@ -245,4 +245,161 @@ def seq {σ ν : Type} (tbl : Table (Method σ ν)) (env : Nat → σ → σ) : 
     | none => none
     | some r => (seq tbl env rest (f - r.2.2) (k + r.2.2) r.2.1).map fun q => (r.1 :: q.1, q.2)
 
+/-! ## line protocol
+  case rpc <entry>*        entry = <hexns>  |  <hexns>:<hexattr>:o  |  <hexns>:<hexattr>:m<min>,<max>,<beh>
+                           beh   = v<id> | f<code> | x | t | d<k>,<final>      final = v<id> | f<code> | x
+  ops:  call <hexname> <nargs>              → value <v> | fault <c> | raised <w> | deferred    then  ` ran=<labels|->`
+        multi <hexname|*>:<nargs>,...  | -  → results=<v..|f..;...|-> ticks=<n> ran=<labels|->
+        gate <name> <mood> <nLeaf>          → fault <c> changed=<0|1> | passes | other
+-/
+abbrev Log := List String
+
+inductive Fin3 | v (id : Int) | f (code : Int) | x
+inductive Beh | fin (r : Fin3) | t | d (k : Nat) (r : Fin3)
+
+def finPoll (r : Fin3) (s : Log) : PollR Log Int :=
+  match r with
+  | .v i => .value i s
+  | .f c => .fault c s
+  | .x => .raised "ValueError" s
+
+def mkCb (label : String) (r : Fin3) : Nat → Cb Log Int
+  | 0 => .mk fun s => finPoll r (s ++ ["poll:" ++ label])
+  | k+1 => .mk fun s => .again (mkCb label r k) (s ++ ["poll:" ++ label])
+
+def behRun (label : String) (b : Beh) (args : List Int) (s : Log) : Outcome Log Int × Log :=
+  let s' := s ++ [s!"{label}/{args.length}"]
+  match b with
+  | .fin (.v i) => (.value i, s')
+  | .fin (.f c) => (.fault c, s')
+  | .fin .x => (.raised "ValueError", s')
+  | .t => (.raised "TypeError", s')
+  | .d k r => (.deferred (mkCb label r k), s')
+
+def parseFin (t : String) : Option Fin3 :=
+  if t = "x" then some .x
+  else if t.startsWith "v" then (t.drop 1).toString.toInt?.map .v
+  else if t.startsWith "f" then (t.drop 1).toString.toInt?.map .f
+  else none
+
+def parseBeh (ts : List String) : Option Beh :=
+  match ts with
+  | ["t"] => some .t
+  | [a] => if a.startsWith "d" then none else (parseFin a).map .fin
+  | [a, b] => if a.startsWith "d" then
+      match (a.drop 1).toString.toNat?, parseFin b with
+      | some k, some r => some (.d k r)
+      | _, _ => none
+    else none
+  | _ => none
+
+def nameOfHex (h : String) : Option Name := (bytesOfHex h).map fun bs => bs.map fun b => Char.ofNat b.toNat
+
+inductive Entry
+  | ns (n : Name)
+  | attr (n a : Name) (k : Option (Nat × Nat × Beh))     -- none = other
+
+def parseEntry (t : String) : Option Entry :=
+  match t.splitOn ":" with
+  | [n] => (nameOfHex n).map .ns
+  | [n, a, k] =>
+    match nameOfHex n, nameOfHex a with
+    | some n, some a =>
+      if k = "o" then some (.attr n a none)
+      else if k.startsWith "m" then
+        match (k.drop 1).toString.splitOn "," with
+        | mn :: mx :: beh =>
+          match mn.toNat?, mx.toNat?, parseBeh beh with
+          | some mn, some mx, some b => some (.attr n a (some (mn, mx, b)))
+          | _, _, _ => none
+        | _ => none
+      else none
+    | _, _ => none
+  | _ => none
+
+def labelOf (n a : Name) : String := String.ofList n ++ "." ++ String.ofList a
+
+def tableOf (es : List Entry) : Table (Method Log Int) := fun ns =>
+  if es.any (fun e => match e with | .ns n => n == ns | .attr n _ _ => n == ns) then
+    some fun a =>
+      match es.findSome? (fun e => match e with
+          | .attr n a' k => if n == ns && a' == a then some k else none
+          | _ => none) with
+      | none => .absent
+      | some none => .other
+      | some (some (mn, mx, b)) => .boundMethod { minArgs := mn, maxArgs := mx, run := behRun (labelOf ns a) b }
+  else none
+
+def showOutcome : Outcome Log Int → String
+  | .value v => s!"value {v}"
+  | .fault c => s!"fault {c}"
+  | .raised w => s!"raised {w}"
+  | .deferred _ => "deferred"
+
+def showRan (before after : Log) : String :=
+  let new := after.drop before.length
+  if new.isEmpty then "-" else ",".intercalate new
+
+def showElem : Elem Int → String
+  | .val v => s!"v{v}"
+  | .fstruct c => s!"f{c}"
+  | .broken => "broken"
+
+def parseMCall (t : String) : Option (MCall Int) :=
+  match t.splitOn ":" with
+  | [n, k] =>
+    match k.toNat? with
+    | some k =>
+      let params := (List.range k).map fun i => Int.ofNat i
+      if n = "*" then some { name := none, params := params }
+      else (nameOfHex n).map fun nm => { name := some nm, params := params }
+    | none => none
+  | _ => none
+
+def countTicks {σ ν : Type} (tbl : Table (Method σ ν)) : Nat → Nat → MC σ ν → σ → Nat
+  | 0, k, _, _ => k
+  | f+1, k, m, s =>
+    let r := multi tbl m s
+    if finished r.1 then k + 1 else countTicks tbl f (k + 1) r.1 r.2
+
+def rpcOps (tbl : Table (Method Log Int)) (s : Log) : List String → List String
+  | [] => []
+  | l :: rest =>
+    match words l with
+    | ["call", h, n] =>
+      match nameOfHex h, n.toNat? with
+      | some name, some n =>
+        let r := call tbl name ((List.range n).map fun i => Int.ofNat i) s
+        s!"{showOutcome r.1} ran={showRan s r.2}" :: rpcOps tbl r.2 rest
+      | _, _ => "bad-op" :: rpcOps tbl s rest
+    | ["multi", items] =>
+      let cs : Option (List (MCall Int)) :=
+        if items = "-" then some [] else (items.splitOn ",").mapM parseMCall
+      match cs with
+      | some cs =>
+        let m0 : MC Log Int := { remaining := cs, pending := none, results := [] }
+        match drive tbl (fun _ x => x) 10000 0 m0 s with
+        | some r =>
+          let res := if r.1.isEmpty then "-" else ";".intercalate (r.1.map showElem)
+          s!"results={res} ticks={countTicks tbl 10000 0 m0 s} ran={showRan s r.2}" :: rpcOps tbl r.2 rest
+        | none => "fuel" :: rpcOps tbl s rest
+      | none => "bad-op" :: rpcOps tbl s rest
+    | ["gate", name, mood, nl] =>
+      match mood.toInt?, nl.toNat?, gateTable.lookup name with
+      | some mood, some nl, some g =>
+        let body : Log → Outcome Log Int × Log := fun s => (.value 0, s ++ ["body"])
+        let r := runGated g mood nl body body s
+        let ch := if r.2.length = s.length then 0 else 1
+        (match r.1 with
+         | .fault c => s!"fault {c} changed={ch}"
+         | .value _ => "passes"
+         | _ => "other") :: rpcOps tbl s rest
+      | _, _, _ => "bad-op" :: rpcOps tbl s rest
+    | _ => "bad-op" :: rpcOps tbl s rest
+
+def runCase (cfg : List String) (ops : List String) : List String :=
+  match cfg.mapM parseEntry with
+  | some es => rpcOps (tableOf es) [] ops
+  | none => ops.map fun _ => "bad-config"
+
 end Sv.Rpc
